@@ -18,6 +18,7 @@ func genLease(c *Ctx) error {
 		nHist = 140
 	}
 	directedFailedHandoff(c)
+	directedClusterIDFault(c)
 	for h := 0; h < nHist; h++ {
 		nNodes := r.Range(2, 3)
 		cs := c.Begin()
@@ -166,6 +167,58 @@ func genLease(c *Ctx) error {
 		}
 	}
 	return nil
+}
+
+// directedClusterIDFault: a node wins the election and the lease service stops answering right
+// after the acquisition (the cluster-id lookup at the head of monitorLeaseAsPrimary fails): the
+// node must give the lease back and must not act as primary; when the service answers again the
+// election proceeds normally.
+func directedClusterIDFault(c *Ctx) {
+	for _, variant := range []string{"first-election", "after-demotion", "other-node"} {
+		cs := c.Begin()
+		do := func(op string) string { c.Count("op." + strings.Fields(op)[0]); return cs.Do(op) }
+		obs := func(what string) {
+			if out := do("quiet"); out != "ok" {
+				c.Fail("cluster-id fault scenario (" + variant + ", " + what + "): a node acts as primary without holding the lease (or the reverse): " + out)
+			}
+			do("roles")
+			do("events")
+			do("pctx 0")
+			do("pctx 1")
+		}
+		do("cluster 2")
+		winner := 0
+		switch variant {
+		case "first-election":
+			do("allow -1")
+			do("up 0")
+			do("up 1")
+			obs("nobody allowed")
+		case "after-demotion", "other-node":
+			do("allow 0")
+			do("up 0")
+			do("up 1")
+			obs("node 0 primary")
+			do("pctx-take 0")
+			do("allow -1")
+			do("demote 0")
+			obs("demoted")
+			if variant == "other-node" {
+				winner = 1
+			}
+		}
+		do("cid-fault arm")
+		do(fmt.Sprintf("allow %d", winner))
+		do("cid-fault wait")
+		obs("fault active")
+		do(fmt.Sprintf("n %d import 00", winner)) // a write is refused: the node is not primary
+		do("cid-fault off")
+		do("sync")
+		obs("service answers again")
+		cs.End()
+		c.Count("directed.cluster-id-fault")
+		c.Nontrivial("directed-cid-fault-" + variant)
+	}
 }
 
 // directedFailedHandoff: a handoff whose renewal fails leaves the primary in place; when that
